@@ -589,6 +589,26 @@ def P26():
     )
 
 
+def P27():
+    """Reciprocal trigonometric functions (Euler-angle kinematics): sec, csc, cot."""
+    ph, th, ps_, p_, q_, r_, dt = V("phi"), V("theta"), V("psi"), V("p"), V("q"), V("r"), V("dt")
+    return Program(
+        id="P27-reciprocal-trig",
+        state=["phi", "theta", "psi"],
+        control=["p", "q", "r"],
+        calibration=[],
+        update={
+            "phi": ph + dt * (p_ + (q_ * X.sin(ph) + r_ * X.cos(ph)) * X.tan(th)),
+            "theta": th + dt * (q_ * X.cos(ph) - r_ * X.sin(ph)) + dt * X.cot(ph + 2) * X.C(Fraction(1, 8)),
+            "psi": ps_ + dt * (q_ * X.sin(ph) + r_ * X.cos(ph)) * X.sec(th) + dt * X.csc(ps_ + 2) * X.C(Fraction(1, 4)),
+        },
+        process_noise={"p": 0.25, "q": 0.5, "r": 0.125},
+        sensors={"att": {"a": X.sec(th) + ph, "b": X.csc(ps_ + 2)}},
+        sensor_noise={"att": {"a": 0.5, "b": 0.25}},
+        note="sec / csc / cot in state update and sensor",
+    )
+
+
 def quick_programs():
     return [P1(), P3(), P8()]
 
@@ -599,7 +619,7 @@ def all_fixed():
 
 def catalogue():
     """Every fixed program, including the model-level-only ones (replay looks programs up by id here)."""
-    return all_fixed() + [P11(), P18(), P21(), P22(), P23(), P24(), P25(), P26()]
+    return all_fixed() + [P11(), P18(), P21(), P22(), P23(), P24(), P25(), P26(), P27()]
 
 
 def with_noise(p, process=None, sensor=None, pid=None):
